@@ -15,7 +15,7 @@ TRUSTED = [
     '(b) deletion histories run on real Pony + SQLite (file database, PRAGMA foreign_keys=ON) and the rows read back after every commit through a '
     'separate sqlite3 connection must equal the model state (objects and links), per-op outcome (ok / refused) included',
     'SQLite foreign-key enforcement as documented (immediate; NO ACTION refuses when referencing rows remain; the model refuses eagerly); PRAGMA foreign_key_check '
-    'is run on every read-back as an independent dangling-reference detector',
+    'is run on every read-back as an independent dangling-reference detector; after every call the statuses of all objects in the session cache are inspected: nothing the specification keeps may be flagged as deleted (cascaded dependents of a refused delete included)',
     'the harness tools/c15_impl.py / c15_gen.py',
 ]
 ASSUMPTIONS = [
@@ -30,6 +30,22 @@ RULE = ('histories = population (parent + dependents from a catalogue: one per r
         'distinct = distinct (schema, dependents, order, mode)')
 
 KIND = {'ref': 'KRef', 'set': 'KSet'}
+
+# always run: an entity with several relationships of different kinds where a cascade / clearing on an earlier attribute precedes the
+# refusal on a later one (one-to-many, many-to-many, one-to-one earlier attributes; with and without a level below the dependent)
+def targeted():
+    out = []
+    for names in (('c', 'r'), ('cg', 'r'), ('m', 'r'), ('o', 'r'), ('oc', 'r'), ('c', 'm', 'oc', 'r')):
+        ops, objs = G.population('S15C', names)
+        hs = [o for o, e in objs]
+        refuser = [o for o, e in objs if e == 4][0]
+        for mode in ('one', 'each', 'bulk', 'created'):
+            out.append(('S15C', names, [0], mode))                       # refused: everything must still be there, in the session and in the rows
+            out.append(('S15C', names, [0, refuser, 0], mode))           # refused, then the obstacle goes, then it works
+    for names in (('c1', 'o1'), ('c1g', 'o1'), ('c4', 'o2', 'o1'), ('m', 'o2', 'o1')):      # S15: earlier collections / a later-declared refusing one-to-one
+        for mode in ('one', 'each'):
+            out.append(('S15', names, [0], mode))
+    return out
 
 
 def b(x): return 'true' if x else 'false'
@@ -161,6 +177,9 @@ def correspondence(ctx):
                                   'input': extra if not isinstance(extra, str) else name, 'impl': want, 'model': got})
     # (2) histories
     items, labels = [], []
+    for sname, names, order, mode in targeted():
+        sessions = G.history(sname, names, order, mode)
+        items.append((sname, sessions, I.run_history(sname, sessions))); labels.append((sname, names, order, mode))
     for sname in sorted(I.SCHEMAS):
         rng = random.Random('%s/c15corr/%s' % (ctx.seed, sname))
         if ctx.thorough:
@@ -168,7 +187,7 @@ def correspondence(ctx):
             rng.shuffle(hs)
             hs = hs[:6000] + G.all_histories(sname, 4, 7, rng, 1500)
         else:
-            hs = G.all_histories(sname, 4, 7, rng, 70)
+            hs = G.all_histories(sname, 4, 7, rng, 40)
         for names, order, mode in hs:
             sessions = G.history(sname, names, order, mode)
             out = I.run_history(sname, sessions)
@@ -243,7 +262,7 @@ def expected_state(sname, sessions):
             if any(x == o for ee, aa, x in l): links.discard(l)
     out = []
     for ops in sessions:
-        res = []
+        res, alive = [], []
         for op in ops:
             snap = (dict(objs), set(links))
             try:
@@ -259,7 +278,8 @@ def expected_state(sname, sessions):
             except Refused:
                 objs.clear(); objs.update(snap[0]); links.clear(); links.update(snap[1])
                 res.append('refused')
-        out.append((dict(objs), set(links), res))
+            alive.append(set(objs))
+        out.append((dict(objs), set(links), res, alive))
     return out
 
 
@@ -273,51 +293,68 @@ def canon_links(sname, links):
     return out
 
 
-def judge(sname, sessions, out):
-    """None, or a description of how the implementation deviates from the specification"""
+def deviation(sname, sessions, out):
+    """None, or (kind, session number, text): how the implementation deviates from the specification.
+    kinds: fk_check | result | error-type | marked | commit | rows | links"""
     exp = expected_state(sname, sessions)
-    for n, (o, (eobjs, elinks, eres)) in enumerate(zip(out, exp)):
-        if o['fk_check']: return 'session %d: PRAGMA foreign_key_check reports dangling references %s' % (n, o['fk_check'][:3])
+    for n, (o, (eobjs, elinks, eres, ealive)) in enumerate(zip(out, exp)):
+        if o['fk_check']: return ('fk_check', n, 'session %d: PRAGMA foreign_key_check reports dangling references %s' % (n, o['fk_check'][:3]))
         for k, (r, er) in enumerate(zip(o['results'], eres)):
             got = 'ok' if r[0] in ('ok', 'gone') else 'refused'
-            if got != er: return 'session %d op %d: %s, specification says %s (%s)' % (n, k, r[0], er, r[1][:80])
-            if r[0].startswith('error:'): return 'session %d op %d: refused with %s instead of ConstraintError' % (n, k, r[0][6:])
-        if o['commit'][0] != 'ok': return 'session %d: commit failed: %s' % (n, o['commit'][1][:120])
+            if got != er: return ('result', n, 'session %d op %d: %s, specification says %s (%s)' % (n, k, r[0], er, r[1][:80]))
+            if r[0].startswith('error:'): return ('error-type', n, 'session %d op %d: refused with %s instead of ConstraintError' % (n, k, r[0][6:]))
+            # in the session: nothing the specification keeps may be flagged as deleted (in particular after a refused delete:
+            # the cascaded dependents must be restored, not only the object itself)
+            if len(r) > 2:
+                wrong = sorted(set(r[2]) & ealive[k])
+                if wrong: return ('marked', n, 'session %d op %d (%s): objects %s are flagged as deleted in the session, the specification keeps them' % (n, k, r[0], wrong))
+        if o['commit'][0] != 'ok': return ('commit', n, 'session %d: commit failed: %s' % (n, o['commit'][1][:120]))
         if dict((x, e) for x, e in o['objs']) != eobjs:
-            return 'session %d: rows after commit %s, specification %s' % (n, sorted(o['objs']), sorted(eobjs.items()))
+            return ('rows', n, 'session %d: rows after commit %s, specification %s' % (n, sorted(o['objs']), sorted(eobjs.items())))
         if canon_links(sname, o['links']) != elinks:
-            return 'session %d: links after commit differ: got %s' % (n, sorted(map(sorted, canon_links(sname, o['links']) ^ elinks))[:4])
+            return ('links', n, 'session %d: links after commit differ: got %s' % (n, sorted(map(sorted, canon_links(sname, o['links']) ^ elinks))[:4]))
     return None
 
 
+def judge(sname, sessions, out):
+    d = deviation(sname, sessions, out)
+    return None if d is None else d[2]
+
+
 def finding_key(sname, sessions, out):
-    """classify a deviation by its cause (the C13 undo defects are the only ones recorded); None = not a recorded class"""
-    why = judge(sname, sessions, out)
-    if why is None: return None
-    refused_seen = any(r[0] != 'ok' and r[0] != 'gone' for o in out for r in o['results'])
-    if not refused_seen: return None
+    """classify a deviation by its cause; only the C13 undo defects are recorded classes.  None = not a recorded class."""
+    d = deviation(sname, sessions, out)
+    if d is None: return None
+    kind, n, text = d
+    results = [r for o in out[:n + 1] for r in o['results']]
+    if any(r[0] == 'error:AssertionError' for r in results): return 'refused-delete-after-nested-cascade-assertion'
+    if any(r[0] == 'error:AttributeError' for r in results): return 'refused-delete-undo-crashes'
+    if not any(r[0] == 'refused' for r in results): return None
     exp = expected_state(sname, sessions)
-    for n, (o, (eobjs, elinks, eres)) in enumerate(zip(out, exp)):
-        if any(r[0] == 'error:AssertionError' for r in o['results']): return 'refused-delete-after-nested-cascade-assertion'
-        if any(r[0] == 'error:AttributeError' for r in o['results']): return 'refused-delete-undo-crashes'
-        got = dict((x, e) for x, e in o['objs'])
-        if got != eobjs or canon_links(sname, o['links']) != elinks or o['commit'][0] != 'ok':
-            if any(r[0] == 'refused' for r in o['results']):
-                missing = set(eobjs) - set(got)
-                if missing: return 'refused-delete-drops-rows'
-                return 'refused-delete-changes-links'
+    eobjs, elinks = exp[n][0], exp[n][1]
+    got = dict((x, e) for x, e in out[n]['objs'])
+    if kind == 'links' or (kind in ('result', 'error-type') and 'UnrepeatableReadError' in text):
+        return 'refused-delete-changes-links'               # many-to-many side emptied by a refused delete (and its later consequences)
+    if kind == 'rows':
+        before = set(x for x, e in out[n - 1]['objs']) if n > 0 else set()
+        missing, extra = set(eobjs) - set(got), set(got) - set(eobjs)
+        # only the recorded class: rows of objects created in this very session never reach the database
+        if missing and not extra and not (missing & before): return 'refused-delete-drops-rows'
     return None
 
 
 def search(ctx, deep):
     dist = collections.Counter()
     found, evals, nontriv = {}, 0, set()
+    todo = [(sname, names, order, mode) for sname, names, order, mode in targeted()]
     for sname in sorted(I.SCHEMAS):
         rng = random.Random('%s/c15search/%s' % (ctx.seed, sname))
-        hs = G.all_histories(sname, 3, 5) if deep else G.all_histories(sname, 4, 7, rng, 60)
+        hs = G.all_histories(sname, 3, 5) if deep else G.all_histories(sname, 4, 7, rng, 40)
         if deep:
-            rng.shuffle(hs); hs = hs[:8000]
-        for names, order, mode in hs:
+            rng.shuffle(hs); hs = hs[:2500]
+        todo += [(sname, names, order, mode) for names, order, mode in hs]
+    for sname, names, order, mode in todo:
+        if True:
             sessions = G.history(sname, names, order, mode)
             out = I.run_history(sname, sessions)
             evals += 1
